@@ -356,13 +356,14 @@ Fixpoint pages_eqb (a b : list (list str * N)) : bool :=
   | (x, t) :: a', (y, u) :: b' => strs_eqb x y && (t =? u) && pages_eqb a' b'
   | _, _ => false
   end.
-(* model output vs observed output; a directory's Stat size is file-system dependent *)
+(* model output vs observed output; a directory's Stat size is file-system dependent, and a server
+   that answers not-found for a directory is accepted as well (it only moves towards the contract) *)
 Definition out_match (m o : out) : bool :=
   match m, o with
   | OOk, OOk | ONotFound, ONotFound | OErr, OErr => true
   | OBytes a, OBytes b => str_eqb a b
   | OSize a, OSize b => a =? b
-  | OSizeAny, OSize _ => true
+  | OSizeAny, OSize _ | OSizeAny, ONotFound => true
   | OPages a, OPages b => pages_eqb a b
   | _, _ => false
   end.
